@@ -845,10 +845,14 @@ func raceServers(w *World) {
 			val := newMsg(tr.resource)
 			fillMessage(val.ProtoReflect(), p, 2)
 			req.ProtoReflect().Set(tr.updField, protoreflect.ValueOfMessage(val.ProtoReflect()))
+			reuse := t.Flag(1, 2)
 			lists[i] = append(lists[i], func(*Task) {
 				res := upd.Call([]reflect.Value{reflect.ValueOf(context.Background()), reflect.ValueOf(req)})
 				if m, ok := res[0].Interface().(proto.Message); ok && !res[0].IsNil() {
 					touch(m)
+				}
+				if reuse {
+					scribbleReflect(req.ProtoReflect(), 3) // the request is the caller's again: whatever the server still does must not look at it
 				}
 			})
 		}
